@@ -286,7 +286,7 @@ func c10Cases(tier string, seed uint64, flavor string) []lib.Case {
 	var cases []lib.Case
 	nseeds := 3
 	if tier == "thorough" {
-		nseeds = 12
+		nseeds = 30
 	}
 	for si := 0; si < nseeds; si++ {
 		sd := lib.Mix(seed, 10, uint64(si))
